@@ -581,6 +581,12 @@ func (x *exec) step(i int, op *Op) {
 		x.skipped++
 		return
 	}
+	if x.w.FlexReads > 0 {
+		// a NaN stored by this op (implementation-chosen encoding, NumericToRawBytes) was read back within the same op through
+		// another element type / alignment: the expected value is not determined by the specification
+		x.inconclusive = "nan-encoding-read-back-within-op"
+		return
+	}
 	if exclHugeNumbers && x.w.HugeIntConversions > 0 {
 		// outside the declared domain while the C05 finding (toInt32 & co for |x| >= 2^63) is open: buffer contents reinterpreted
 		// as a float and converted to an integer element type
